@@ -293,7 +293,12 @@ fn walk(
                 a.reason = Some(Reason::StepSkipped);
             }
             "amb" => {
-                let exp = vec![(RE_OK.to_string(), Some(OK_LOC.line)), (RE_AMB.to_string(), Some(AMB_LOC_2.line))];
+                // candidates sorted by (regex, location): `vlab/dup.rs` < `vlab/dup_copy.rs`
+                let exp = if st.text.starts_with("dup ") {
+                    vec![(super::driver::RE_DUP.to_string(), Some(super::driver::DUP_LOC_1.line)), (super::driver::RE_DUP.to_string(), Some(super::driver::DUP_LOC_2.line))]
+                } else {
+                    vec![(RE_OK.to_string(), Some(OK_LOC.line)), (RE_AMB.to_string(), Some(AMB_LOC_2.line))]
+                };
                 match e {
                     ScEv::StepFailed { err: ErrKind::Ambiguous(m), world: w, captures, loc, .. } => {
                         if *m != exp {
